@@ -166,7 +166,7 @@ def corpus():
 
 
 def generate(rng, tier):
-    n = 4000 if tier == "quick" else 200000
+    n = 10000 if tier == "quick" else 200000
     return [gen_case(rng) for _ in range(n)]
 
 
